@@ -540,11 +540,30 @@ def check_wrapper(prog, rep, m, entry):
     if cpu is None or sw is None:
         raise AnalysisIncomplete('_viewshed_cpu / _viewshed_cpu_sweep not found')
     w = WT(prog)
-    w.run(cpu)
+    wret = w.run(cpu)
     kc = [c for c in w.calls if c.callee is sw]
     if len(kc) != 1 or not kc[0].bound:
         rep.add('T6', cpu, entry, 'sweep kernel call', cpu.node.lineno, None, '%d calls of the sweep kernel with bound arguments' % len(kc))
         return
+    # T13: whatever the terrain looks like, the result is the grid the sweep filled - no path returns something computed
+    # another way (a "fast path" for flat / empty rasters has no occlusion model behind it)
+    def ret_leaves(t_):
+        if isinstance(t_, tuple) and t_ and t_[0] == 'phi':
+            return ret_leaves(t_[2]) + ret_leaves(t_[3])
+        return [t_] if t_ is not None else []
+    okres, whyres = None, 'returned value not understood'
+    if wret is not None:
+        bad_ = []
+        grid_ = kc[0].bound.get(sw.params[-1]) if sw.params else None
+        for lf in ret_leaves(wret):
+            data_ = None
+            if isinstance(lf, tuple) and lf[0] == 'call' and str(lf[1]).endswith('DataArray'):
+                data_ = lf[2][0] if lf[2] else dict(lf[3]).get('data')
+            if data_ is None or not (key(data_) == key(kc[0].result) or (grid_ is not None and key(data_) == key(grid_))):
+                bad_.append(tshow(lf, 90))
+        okres, whyres = not bad_, ('; returned on some path: %s' % bad_[0]) if bad_ else ''
+    rep.add('T13', cpu, entry, 'every path returns the visibility grid the sweep filled', kc[0].node.lineno, okres,
+            'the result must come from the sweep on every path' + whyres)
     # the sweep's parameters under the names the rules use: by position of its own signature (their names may be anything)
     SW_CANON = ('raster', 'vp_row', 'vp_col', 'vp_elev', 'vp_target', 'ew_res', 'ns_res', 'event_rcts', 'event_aes', 'data', 'visibility_grid')
     b = {c_: kc[0].bound.get(p_) for c_, p_ in zip(SW_CANON, sw.params)}
@@ -1116,4 +1135,5 @@ def check(prog, rep):
     rep.floor('T10', 2)
     rep.floor('T11', 7)
     rep.floor('T9', 8)
+    rep.floor('T13', 1)
     rep.floor('T12', 2)
